@@ -78,6 +78,13 @@ def check(ctx):
                 digs.append(e)
     if len(digs) > 3 and len({id(e['node']) for e in digs}) < len(digs):
         digs = [e for e in digs if e['x'] is not None and e['x'].axis is not None]
+    for e in uniq_events(it, {'histogramdd'}, inside):
+        rg = e['range']
+        if rg is None or rg.ty == 'None':
+            ctx.ob('R2', fi, e['node'], False, 'np.histogramdd without `range`: the grid spans the smallest and largest coordinate that occurs instead of the unit '
+                                               'cell [0, 1), so voxels do not correspond to floor(fraction x n) and a localised density is stretched over the grid')
+        else:
+            ctx.ob('R2', fi, e['node'], None, 'np.histogramdd with an explicit range: edges not analysed')
     if len(digs) != 3:
         ctx.ob('R1', fi, 'digitize calls', None, f'{len(digs)} digitize calls instead of one per axis')
     extents = {}
